@@ -124,9 +124,10 @@ class Refusal(Harness):
         pobjs = {n: PDDLObject(n, dom.types[t]) for n, t in objects.items()}
         out = []
         atoms = [("p", ("o1",)), ("g", ()), ("q", ("o1",)), ("r", ("o1", "o2"))]
-        for facts, fluents in G.states_over(atoms, [], all_fluents=G.ground_atoms(objects)[1]):
+        shared_op = Operator(dom.actions["act"], dom, ["o1", "o2"], problem_objects=pobjs)     # one object re-used for every state
+        for i, (facts, fluents) in enumerate(G.states_over(atoms, [], all_fluents=G.ground_atoms(objects)[1])):
             st = RA.make_state(dom, facts, fluents)
-            op = Operator(dom.actions["act"], dom, ["o1", "o2"], problem_objects=pobjs)
+            op = shared_op if i % 2 else Operator(dom.actions["act"], dom, ["o1", "o2"], problem_objects=pobjs)
             got = RA.outcome(op.apply, st, allow_inapplicable_actions=inp["allow"], skip_validation=inp["skip"])
             self.cases += 1
             applicable = ("p", ("o1",)) in facts
